@@ -198,6 +198,47 @@ def run(run, tier, seed):
                 events.append({"ev": "fault.cli", "file": name, "cmd": cmd, "kind": f["kind"], "off": f["off"], "bit": f["bit"],
                                "rc": rc, "same_output": bool(same_out), "panic": ""})
                 run.evaluations += 1
+        # the interrupted in-place overwrite itself: `ska delete` / `ska weed` without -o, killed by the kernel when the
+        # file being written reaches a size limit (RLIMIT_FSIZE); whatever the code leaves on disk (the cut-off file and
+        # any side files it created) is then opened by the subcommands in that directory: rejected, or what they print
+        # for the completely written file
+        import resource
+        for name in ("big64", "tail128"):
+            for cmd in ("delete", "weed"):
+                cdir = os.path.join(sb.dir, "crash_%s_%s" % (name, cmd))
+                os.makedirs(cdir, exist_ok=True)
+                done = os.path.join(cdir, "complete.skf")
+                argv = (["delete", "-s", "F", "b"] if cmd == "delete" else
+                        ["weed", "F", "--min-freq", "0", "--filter", "no-const"])
+                shutil.copy(files[name], done)
+                rcw, _, sew = vlib.ska_cli([a if a != "F" else done for a in argv])
+                if rcw != 0:
+                    raise vlib.ToolError("in-place %s failed on the intact file: %s" % (cmd, sew.decode(errors="replace")[-200:]))
+                full = open(done, "rb").read()
+                want_nk = vlib.ska_cli(["nk", "--full-info", done])[1]
+                want_al = sorted(vlib.ska_cli(["align", done, "--min-freq", "0", "--filter", "no-filter"])[1].split(b"\n"))
+                for limit in sorted({64, 4096, len(full) // 2, max(len(full) - 1, 1)}):
+                    target = os.path.join(cdir, "t%d.skf" % limit)
+                    shutil.copy(files[name], target)
+                    p = subprocess.run([vlib.SKA] + [a if a != "F" else target for a in argv], stdout=subprocess.PIPE, stderr=subprocess.PIPE,
+                                       preexec_fn=lambda: resource.setrlimit(resource.RLIMIT_FSIZE, (limit, limit)))
+                    left = open(target, "rb").read() if os.path.exists(target) else b""
+                    is_prefix = full.startswith(left) and len(left) < len(full)
+                    for probe in ("nk", "align"):
+                        if probe == "nk":
+                            rc, so, se = vlib.ska_cli(["nk", "--full-info", target])
+                            same_out = so == want_nk
+                        else:
+                            rc, so, se = vlib.ska_cli(["align", target, "--min-freq", "0", "--filter", "no-filter"])
+                            same_out = sorted(so.split(b"\n")) == want_al
+                        events.append({"ev": "fault.cli", "file": name, "cmd": "%s after interrupted in-place %s" % (probe, cmd),
+                                       "kind": "crash", "off": len(left), "bit": 0, "rc": rc, "same_output": bool(same_out),
+                                       "left_is_proper_prefix": is_prefix, "writer_rc": p.returncode, "panic": ""})
+                        run.evaluations += 1
+                    run.nontriv(["crash", name, cmd, limit])
+                    for fn in os.listdir(cdir):
+                        if fn.startswith("t%d." % limit):
+                            os.remove(os.path.join(cdir, fn))
     finally:
         sb.close()
     ok, bad, states = vlib.validate_trace("Trace_Skf", events, "c19", shards=8, timeout=2400)
